@@ -74,7 +74,7 @@ pub fn res_str(r: &Result<&[u8], DecodeErr>) -> String {
 #[macro_export]
 macro_rules! with_cap {
     ($cap:expr, $f:ident, $args:tt) => {
-        with_cap!(@go $cap, $f, $args,
+        $crate::with_cap!(@go $cap, $f, $args,
             0 1 2 3 4 5 6 7 8 9 10 11 12 13 14 15 16 17 18 19 20 21 22 23 24 25 26 27 28 29 30 31 32
             33 34 35 36 37 38 39 40 48 60 64 100 128 200 252 253 254 255 256 257 258 259 260 300 512
             1000 1020 1021 1022 1023 1024 1025 1026 1027 1028 2048 4096 8188 8189 8190 8191 8192
@@ -89,6 +89,14 @@ macro_rules! with_cap {
                 other => panic!("capacity {} not in the harness menu", other),
             }
         }
+    };
+}
+
+/// smaller menu for the reader suite (each capacity instantiates 48 call shapes)
+#[macro_export]
+macro_rules! with_cap_small {
+    ($cap:expr, $f:ident, $args:tt) => {
+        $crate::with_cap!(@go $cap, $f, $args, 0 1 2 3 4 5 6 7 8 12 16 20 32 64 256 1024 8192)
     };
 }
 
